@@ -6,24 +6,25 @@ From HN Require Import Base.Bytes Model.Filter Model.RawFrame Model.FilterGlue
 Import ListNotations.
 
 (* the pre-parse filter and the analyzer decode the same endpoints (Ethernet / raw IP / loopback
-   framing, IPv4 with any IHL 0..15 and any total length, IPv6), outside the known class *)
+   framing -- after fix 3908c86 with any bytes 2..3 of the loopback header --, IPv4 with any IHL 0..15 and
+   any total length, IPv6): no known class is left *)
 Theorem C15_quick_agrees :
   forall (f : bytes) (e : endpoints),
-    analyzer_endpoints f = Some e -> loopback_mismatch f = false -> quick_info f = Some e.
+    analyzer_endpoints f = Some e -> quick_info f = Some e.
 Proof. exact quick_agrees. Qed.
 Check C15_quick_agrees :
   forall (f : bytes) (e : endpoints),
-    analyzer_endpoints f = Some e -> loopback_mismatch f = false -> quick_info f = Some e.
+    analyzer_endpoints f = Some e -> quick_info f = Some e.
 Print Assumptions C15_quick_agrees.
 
 (* when the filter recognises nothing and lets the frame through, the analyzer reports nothing *)
 Theorem C15_failopen_harmless :
   forall f : bytes,
-    quick_info f = None -> analyzer_endpoints f = None \/ loopback_mismatch f = true.
+    quick_info f = None -> analyzer_endpoints f = None.
 Proof. exact failopen_harmless. Qed.
 Check C15_failopen_harmless :
   forall f : bytes,
-    quick_info f = None -> analyzer_endpoints f = None \/ loopback_mismatch f = true.
+    quick_info f = None -> analyzer_endpoints f = None.
 Print Assumptions C15_failopen_harmless.
 
 (* commutation for any per-packet analyzer `step` that is inert on frames without endpoints *)
@@ -32,7 +33,6 @@ Theorem C15_commutes :
     (forall s p, analyzer_endpoints p = None -> step s p = (s, [])) ->
     forall c : cfg_src, cfg_wf c = true ->
     forall (tau : list bytes) (s : St),
-      (forall p, In p tau -> loopback_mismatch p = false) ->
       run (with_filter (build c) step) s tau = run step s (admitted_subtrace c tau).
 Proof. exact commute. Qed.
 Check C15_commutes :
@@ -40,7 +40,6 @@ Check C15_commutes :
     (forall s p, analyzer_endpoints p = None -> step s p = (s, [])) ->
     forall c : cfg_src, cfg_wf c = true ->
     forall (tau : list bytes) (s : St),
-      (forall p, In p tau -> loopback_mismatch p = false) ->
       run (with_filter (build c) step) s tau = run step s (admitted_subtrace c tau).
 Print Assumptions C15_commutes.
 
@@ -49,7 +48,6 @@ Theorem C15_commutes_glue :
   forall (St Out : Type) (core : St -> endpoints -> bytes -> St * list Out) (c : cfg_src),
     cfg_wf c = true ->
     forall (tau : list bytes) (s : St),
-      (forall p, In p tau -> loopback_mismatch p = false) ->
       run (process_packet core (Some (build c))) s tau
       = run (process_packet core None) s (admitted_subtrace c tau).
 Proof. exact @commute_glue. Qed.
@@ -57,7 +55,6 @@ Check C15_commutes_glue :
   forall (St Out : Type) (core : St -> endpoints -> bytes -> St * list Out) (c : cfg_src),
     cfg_wf c = true ->
     forall (tau : list bytes) (s : St),
-      (forall p, In p tau -> loopback_mismatch p = false) ->
       run (process_packet core (Some (build c))) s tau
       = run (process_packet core None) s (admitted_subtrace c tau).
 Print Assumptions C15_commutes_glue.
@@ -68,7 +65,6 @@ Theorem C15_commutes_per_worker :
     (forall s p, analyzer_endpoints p = None -> step s p = (s, [])) ->
     forall (c : cfg_src) (shard : bytes -> nat) (w : nat), cfg_wf c = true ->
     forall (tau : list bytes) (s : St),
-      (forall p, In p tau -> loopback_mismatch p = false) ->
       let mine := filter (fun p => Nat.eqb (shard p) w) in
       run (with_filter (build c) step) s (mine tau) = run step s (mine (admitted_subtrace c tau)).
 Proof. exact commute_worker. Qed.
@@ -77,7 +73,6 @@ Check C15_commutes_per_worker :
     (forall s p, analyzer_endpoints p = None -> step s p = (s, [])) ->
     forall (c : cfg_src) (shard : bytes -> nat) (w : nat), cfg_wf c = true ->
     forall (tau : list bytes) (s : St),
-      (forall p, In p tau -> loopback_mismatch p = false) ->
       let mine := filter (fun p => Nat.eqb (shard p) w) in
       run (with_filter (build c) step) s (mine tau) = run step s (mine (admitted_subtrace c tau)).
 Print Assumptions C15_commutes_per_worker.
@@ -87,20 +82,15 @@ Print Assumptions C15_commutes_per_worker.
 Example C15_hypotheses_satisfiable :
   let f := hexb (bs "0000000000010000000000020800460000300000400040060000c0a801010a00000201020304303901bb00000000000000005002ffff00000000") in
   analyzer_endpoints f = Some {| e_src := V4 3232235777; e_dst := V4 167772162; e_sport := 12345; e_dport := 443 |}
-  /\ loopback_mismatch f = false /\ quick_info f = analyzer_endpoints f
+  /\ quick_info f = analyzer_endpoints f
   /\ cfg_wf only_dst_443 = true /\ spec_admits only_dst_443 f = true.
 Proof. vm_compute. repeat split; reflexivity. Qed.
 
-(* known class (open finding C15-loopback-1e): the class is inhabited and the commutation fails on it *)
-Lemma Known_loopback_mismatch_refuted :
-  exists (c : cfg_src) (f : bytes),
-    loopback_mismatch f = true /\ cfg_wf c = true /\
-    raw_apply (build c) f <> spec_admits c f /\
-    run (process_packet echo_core (Some (build c))) tt [f]
-    <> run (process_packet echo_core None) tt (admitted_subtrace c [f]).
-Proof.
-  exists only_dst_443, loopback_v4_frame.
-  destruct loopback_frame_facts as (H1 & H2 & _ & _ & H5 & H6).
-  repeat split; auto. { rewrite H5, H6. discriminate. } apply loopback_refutes_commutation.
-Qed.
-Print Assumptions Known_loopback_mismatch_refuted.
+(* the former known class (C15-loopback-1e, fixed by 3908c86): 1e 00 00 00 + IPv4 to port 80 under a filter that
+   admits only destination port 443 is now rejected by the filter, as the documented rule demands *)
+Example C15_loopback_frame_now_filtered :
+  analyzer_endpoints loopback_v4_frame
+  = Some {| e_src := V4 167772161; e_dst := V4 167772162; e_sport := 12345; e_dport := 80 |}
+  /\ quick_info loopback_v4_frame = analyzer_endpoints loopback_v4_frame
+  /\ raw_apply (build only_dst_443) loopback_v4_frame = spec_admits only_dst_443 loopback_v4_frame.
+Proof. destruct loopback_frame_facts as (_ & H2 & H3 & H4 & H5). rewrite H4, H5. auto. Qed.
